@@ -14,6 +14,7 @@ import TE.Gen.Kernels
 import TE.Gen.KernelsAgg
 import TE.Gen.KernelsRank
 import TE.Gen.KernelsCurve
+import TE.Gen.KernelsBinned
 namespace TE.Driver
 open TE TE.TX
 
@@ -73,9 +74,9 @@ def runKernel (k : Kernel) (a : Args) : Except Err String :=
       else .error .other
 
 /-- `gen.<kernel>` for the kernels of C04 (TE/Gen/Kernels.lean), C07 (TE/Gen/KernelsAgg.lean), C08
-    (TE/Gen/KernelsRank.lean) and C05 (TE/Gen/KernelsCurve.lean).  Free variables of a generated term that are not parameters (`finfo.tiny`: a constant
+    (TE/Gen/KernelsRank.lean), C05 (TE/Gen/KernelsCurve.lean) and C06 (TE/Gen/KernelsBinned.lean).  Free variables of a generated term that are not parameters (`finfo.tiny`: a constant
     of the storage dtype, which is not modelled) are supplied by the request like parameters. -/
 def kernelFns : List (String × (Args → Except Err String)) :=
-  (Gen.kernels ++ Gen.Agg.kernels ++ Gen.Rank.kernels ++ Gen.Curve.kernels).map fun k => ("gen." ++ k.name, runKernel k)
+  (Gen.kernels ++ Gen.Agg.kernels ++ Gen.Rank.kernels ++ Gen.Curve.kernels ++ Gen.Binned.kernels).map fun k => ("gen." ++ k.name, runKernel k)
 
 end TE.Driver
